@@ -236,7 +236,8 @@ def run_case(rng, case_no, impl_name):
             if not cands or impl_name == "beaker":      # BeakerCacheImpl has put() but no set()
                 continue
             s = rng.choice(cands)
-            t.cache.set(key_name(s), "[%d#77@9:]" % s.sid)
+            dn = ("render_" + s.name) if s.kind in ("def", "block") else (s.name or key_name(s))
+            t.cache.set(key_name(s), "[%d#77@9:]" % s.sid, __M_defname=dn)
             ops.append(("P", ti, key_name(s), s.sid))
             results.append("")
         logs.append((be.RecordingImpl.log[mark:], before, dict(counters)))
@@ -269,9 +270,26 @@ def judge(ctx, case):
         for s in all_secs(page):
             owner[s.sid] = ti
     mid = [_re.sub(r"\W", "_", u) for u in case["uris"]]
+    invalidated = set()          # (template index, key) invalidated and not yet re-created
     for i, (op, res, (log, before, after)) in enumerate(zip(case["ops"], case["results"], case["logs"])):
+        if op[0] == "I":
+            invalidated.add((op[1], op[2]))
+        if op[0] == "P":
+            invalidated.discard((op[1], op[2]))
         if op[0] != "R":
             continue
+        if case["impl"] != "beaker" and len(set(mid)) == len(mid):
+            secs_t = all_secs(case["tmpls"][op[1]][2])
+            n_ctx = sum(1 for s_ in secs_t if s_.cached and s_.keyexpr)
+            names = [key_name(s_) for s_ in secs_t if s_.cached and not s_.keyexpr]
+            for kind, (cid, key), kw in log:
+                unambiguous = (n_ctx == 1) if isinstance(key, int) else (names.count(key) == 1)
+                if kind == "hit" and (op[1], key) in invalidated and unambiguous:
+                    ctx.violation({"uris": case["uris"], "sources": [t[1] for t in case["tmpls"]], "ops": [list(o) for o in case["ops"][:i + 1]], "key": repr(key), "backend": case["impl"], "log": repr([(a, b[1], c.get("region")) for a, b, c in log]), "invalidated": repr(sorted(invalidated, key=repr))},
+                                  "an entry that had been invalidated was served again without re-running the body", tags=["c17.invalidate"])
+                    return
+                if kind == "miss":
+                    invalidated.discard((op[1], key))
         ti = op[1]
         u, src, page, pattrs = case["tmpls"][ti]
         brief = {"uris": case["uris"], "sources": [t[1] for t in case["tmpls"]], "ops": [list(o) for o in case["ops"][:i + 1]], "output": res, "backend": case["impl"]}
@@ -324,12 +342,16 @@ def judge(ctx, case):
                     want[k2[6:]] = v
             if "timeout" in want:
                 want["timeout"] = int(want["timeout"])
-            got = {k2: v for k2, v in kw.items() if k2 != "context"}
+            got = {k2: v for k2, v in kw.items() if k2 not in ("context", "__ctx_x")}
+            if "context" in kw and kw.get("__ctx_x") != op[2]:
+                ctx.violation(dict(brief, key=repr(key), context_x=repr(kw.get("__ctx_x")), render_x=op[2]),
+                              "the backend was handed a rendering context that is not the one of this render", tags=["c17.context.stale"])
+                return
             if got != want or ("timeout" in got and type(got["timeout"]) is not int):
                 tags = ["c17.args"]
                 # invalidate_*() for this section before its first use freezes its arguments to the template-level ones
                 dn = ("render_" + s.name) if s.kind in ("def", "block") else ("render_body" if s.kind == "page" else (s.name or key_name(s)))
-                inv_before = any(o[0] == "I" and o[1] == ti and o[3] == dn for o in case["ops"][:i])
+                inv_before = any(o[0] in ("I", "P") and o[1] == ti and (o[3] if o[0] == "I" else o[2]) == dn for o in case["ops"][:i])
                 if got == dict(case["tmpl_args"]) and inv_before:
                     tags = ["c17.args.frozen_by_invalidate"]
                 ctx.violation(dict(brief, section=s.sid, key=repr(key), got=repr(got), want=repr(want)),
@@ -344,6 +366,7 @@ def run(ctx):
     from mako import cache as mcache
     mcache.register_plugin("verif", "harness.c17_backend", "RecordingImpl")
     mcache.register_plugin("verifctx", "harness.c17_backend", "RecordingCtxImpl")
+    mcache.register_plugin("verifregion", "harness.c17_backend", "RecordingRegionImpl")
     ctx.prove(gens=["unicode"])
     model_ok = not any(b["name"].startswith("extraction") for b in ctx.broken)
     rng, tier = ctx.rng, ctx.tier
@@ -351,7 +374,7 @@ def run(ctx):
     cases, lines = [], []
     kinds = {}
     for i in range(n):
-        impl = "verif" if i % 5 < 3 else ("verifctx" if i % 5 == 3 else "beaker")
+        impl = ["verif", "verif", "verifregion", "verifctx", "beaker"][i % 5]
         with common.time_limit(30):
             case = run_case(rng, i, impl)
         cases.append(case)
@@ -363,12 +386,14 @@ def run(ctx):
         judge(ctx, case)
         lines.append(model_line(case))
     ctx.dist["operations"] = kinds
-    ctx.dist["backends"] = {"recording": sum(1 for c in cases if c["impl"] == "verif"), "recording+context": sum(1 for c in cases if c["impl"] == "verifctx"), "beaker-memory": sum(1 for c in cases if c["impl"] == "beaker")}
+    ctx.dist["backends"] = {"recording": sum(1 for c in cases if c["impl"] == "verif"), "recording+regions": sum(1 for c in cases if c["impl"] == "verifregion"), "recording+context": sum(1 for c in cases if c["impl"] == "verifctx"), "beaker-memory": sum(1 for c in cases if c["impl"] == "beaker")}
     ctx.dist["template_sets_with_colliding_ids"] = sum(1 for c in cases if len(set(re.sub(r"\W", "_", u) for u in c["uris"])) < len(c["uris"]))
     ctx.generators["histories"] = {"cases": n, "ops_per_history": "3..30", "templates_per_set": "1..3"}
     disagreements = []
     if model_ok:
         for case, line, m in zip(cases, lines, common.run_driver(PROP, lines)):
+            if case["impl"] == "verifregion":
+                continue      # a store per region is outside the model; judged by the oracles only
             if m.startswith("!"):
                 disagreements.append((case, m, "n/a"))
                 continue
